@@ -13,7 +13,8 @@ Open Scope N_scope.
 #[export] Instance eta_gw_state : Settable _ := settable! Build_gw_state
   <gw_st; gw_client_id; gw_keepalive; gw_registered; gw_seq_next; gw_seq_overflow;
    gw_no_more_tids; gw_buffer; gw_objs; gw_by_id; gw_connect; gw_next_obj; gw_timers;
-   gw_next_seq; gw_now; gw_last_sn; gw_last_mq; gw_ending; gw_ended; gw_accepted; gw_handed_out>.
+   gw_next_seq; gw_now; gw_last_sn; gw_last_mq; gw_ending; gw_ended; gw_accepted; gw_handed_out;
+   gw_auth_seen>.
 
 #[export] Instance eta_mq_connect : Settable _ := settable! Build_mq_connect
   <c_cid; c_clean; c_keepalive; c_will; c_wqos; c_wretain; c_wtopic; c_wmsg;
@@ -45,7 +46,8 @@ Definition andthen (r : R) (g : gw_state -> R) : R :=
 Definition sn_send_owned (s : gw_state) (owner : option N) (p : packet) : R :=
   match gw_st s with
   | Asleep => ok (s <| gw_buffer := gw_buffer s ++ [(owner, p)] |>) []
-  | _ => ok s [OutSn (gw_now s) (pack p)]
+  | _ => if len (pack p) <=? MaxPacketLen then ok s [OutSn (gw_now s) (pack p)]
+         else stop s [] EcHandlerError      (* "packet too long": the error ends the session *)
   end.
 Definition sn_send (s : gw_state) (p : packet) : R := sn_send_owned s None p.
 
@@ -99,7 +101,7 @@ Definition get_by_id (s : gw_state) (mid : N) : option (N * txn) :=
   | None => None
   end.
 
-Definition get_connect (s : gw_state) : option (N * mq_connect * bool) :=
+Definition get_connect (s : gw_state) : option (N * mq_connect * cx_state) :=
   match gw_connect s with
   | Some g => match gw_objs s !! g with Some (TxConnect mq a) => Some (g, mq, a) | _ => None end
   | None => None
@@ -203,20 +205,24 @@ Definition packet_legal (cfg : gw_cfg) (s : gw_state) (p : packet) : bool :=
   | _ => true
   end.
 
+(* connectTransaction.authDone: continue with the will, if any, or send MQTT CONNECT *)
+Definition connect_auth_done (s : gw_state) (g : N) (mq : mq_connect) : R :=
+  if c_will mq then sn_send (set_obj s g (TxConnect mq CxWillTopic)) WillTopicReq
+  else mq_send (set_obj s g (TxConnect mq CxConnack)) (MqConnect mq).
+
 (* connectTransaction.Start, after the transaction was stored *)
-Definition connect_start (s : gw_state) (mq : mq_connect) (auth : bool) : R :=
-  if auth then ok s []
-  else if c_will mq then sn_send s WillTopicReq
-  else mq_send s (MqConnect mq).
+Definition connect_start (s : gw_state) (g : N) (mq : mq_connect) (auth : bool) : R :=
+  if auth then ok (set_obj s g (TxConnect mq CxAuth)) []
+  else connect_auth_done s g mq.
 
 (* handler1.handleConnect *)
 Definition handle_connect (cfg : gw_cfg) (s : gw_state) (will clean : bool) (proto dur : N) (cid : bytes) : R :=
   if negb (proto =? 1) then sn_send s (Connack RC_NOT_SUPPORTED) else
-  if cstate_eqb (gw_st s) Awake then
+  if cstate_eqb (gw_st s) Awake || cstate_eqb (gw_st s) Asleep then
     sn_send (s <| gw_st := Active |>) (Connack RC_ACCEPTED)
   else if dur =? 0 then sn_send s (Connack RC_NOT_SUPPORTED)
   else
-    let s := s <| gw_keepalive := dur |> <| gw_client_id := cid |> in
+    let s := s <| gw_keepalive := dur |> <| gw_client_id := cid |> <| gw_auth_seen := None |> in
     let mq := {| c_cid := cid; c_clean := clean; c_keepalive := dur;
                  c_will := will; c_wqos := 0; c_wretain := false; c_wtopic := []; c_wmsg := [];
                  c_uflag := match cfg_user cfg with Some _ => true | None => false end;
@@ -225,11 +231,11 @@ Definition handle_connect (cfg : gw_cfg) (s : gw_state) (will clean : bool) (pro
                  c_pass := match cfg_pass cfg with Some p => p | None => [] end |} in
     (* cancel the previous transaction, if any: Fail(Cancelled) *)
     let s := match gw_connect s with Some g => finish_obj s g | None => s end in
-    match new_obj s (TxConnect mq (auth_enabled cfg)) with
+    match new_obj s (TxConnect mq CxAuth) with
     | (s, g) =>
       let s := s <| gw_connect := Some g |> in
       let s := arm s (TmConnect g) connectTransactionTimeout in
-      connect_start s mq (auth_enabled cfg)
+      connect_start s g mq (auth_enabled cfg)
     end.
 
 (* bytes.Split(data, {0}) has exactly three parts: returns the 2nd and 3rd *)
@@ -247,14 +253,14 @@ Definition decode_plain (data : bytes) : option (bytes * bytes) :=
 Definition AUTH_PLAIN : bytes := [80; 76; 65; 73; 78].
 
 (* connectTransaction.Auth *)
-Definition connect_auth (s : gw_state) (g : N) (mq : mq_connect) (a : bool) (method data : bytes) : R :=
+Definition connect_auth (s : gw_state) (g : N) (mq : mq_connect) (st : cx_state) (method data : bytes) : R :=
+  if negb (cx_state_eqb st CxAuth) then ok s [] else     (* unexpected packet: ignored *)
   if beq method AUTH_PLAIN then
     match decode_plain data with
     | None => stop (finish_obj s g) [] EcConnectFailed
     | Some (u, p) =>
       let mq := mq <| c_uflag := true |> <| c_user := u |> <| c_pflag := true |> <| c_pass := p |> in
-      let s := set_obj s g (TxConnect mq a) in
-      if c_will mq then sn_send s WillTopicReq else mq_send s (MqConnect mq)
+      connect_auth_done (s <| gw_auth_seen := Some (u, p) |>) g mq
     end
   else
     andthen (sn_send s (Connack RC_NOT_SUPPORTED))
@@ -266,6 +272,8 @@ Definition handle_client_publish (cfg : gw_cfg) (s : gw_state)
   match resolve_client_topic cfg s tit tid with
   | None => stop s [] EcHandlerError
   | Some topic =>
+    (* what is not a valid MQTT PUBLISH is not forwarded *)
+    if has_wildcard topic || (((qos =? 1) || (qos =? 2)) && (mid =? 0)) then stop s [] EcHandlerError else
     let s := if qos =? 1 then
                match new_obj s (TxClientPub1 mid tid) with
                | (s, g) => arm (s <| gw_by_id := <[mid := g]> (gw_by_id s) |>) (TmTimed g) (retry_delay cfg)
@@ -282,6 +290,7 @@ Definition handle_subscribe (cfg : gw_cfg) (s : gw_state) (dup : bool) (qos tit 
       let s := arm (s <| gw_by_id := <[mid := g]> (gw_by_id s) |>) (TmTimed g) (retry_delay cfg) in
       mq_send s (MqSubscribe mid false [(topic, qos)])
     end in
+  if (2 <? qos) || (mid =? 0) then stop s [] EcHandlerError else
   if tit =? TIT_STRING then
     if negb (has_wildcard name) then
       match new_topic_id cfg s with
@@ -299,6 +308,7 @@ Definition handle_subscribe (cfg : gw_cfg) (s : gw_state) (dup : bool) (qos tit 
 
 (* handler1.handleUnsubscribe *)
 Definition handle_unsubscribe (cfg : gw_cfg) (s : gw_state) (tit mid tid : N) (name : bytes) : R :=
+  if mid =? 0 then stop s [] EcHandlerError else
   if tit =? TIT_STRING then mq_send s (MqUnsubscribe mid [name])
   else if tit =? TIT_PREDEFINED then
     match get_name (predefined cfg) (gw_client_id s) tid with
@@ -349,15 +359,19 @@ Definition handle_sn (cfg : gw_cfg) (s : gw_state) (p : packet) : R :=
   | WillTopic q r topic =>
     match get_connect s with
     | Some (g, mq, a) =>
+      if negb (cx_state_eqb a CxWillTopic) then ok s [] else
+      (* a will that cannot be translated to MQTT fails the exchange *)
+      if (len topic =? 0) || (2 <? q) then stop (finish_obj s g) [] EcConnectFailed else
       let mq := mq <| c_wqos := q |> <| c_wretain := r |> <| c_wtopic := topic |> in
-      sn_send (set_obj s g (TxConnect mq a)) WillMsgReq
+      sn_send (set_obj s g (TxConnect mq CxWillMsg)) WillMsgReq
     | None => ok s []
     end
   | WillMsg msg =>
     match get_connect s with
     | Some (g, mq, a) =>
+      if negb (cx_state_eqb a CxWillMsg) then ok s [] else
       let mq := mq <| c_wmsg := msg |> in
-      mq_send (set_obj s g (TxConnect mq a)) (MqConnect mq)
+      mq_send (set_obj s g (TxConnect mq CxConnack)) (MqConnect mq)
     | None => ok s []
     end
   | Register _ mid name =>
@@ -366,14 +380,15 @@ Definition handle_sn (cfg : gw_cfg) (s : gw_state) (p : packet) : R :=
     | (s, None) => sn_send s (Regack 0 mid RC_INVALID_TOPIC_ID)
     end
   | Publish dup q r tit tid mid data => handle_client_publish cfg s dup q r tit tid mid data
-  | Pubrel mid => mq_send s (MqPubrel mid)
+  | Pubrel mid => if mid =? 0 then stop s [] EcHandlerError else mq_send s (MqPubrel mid)
   | Subscribe dup q tit mid tid name => handle_subscribe cfg s dup q tit mid tid name
   | Unsubscribe tit mid tid name => handle_unsubscribe cfg s tit mid tid name
   | Pingreq _ =>
     if cstate_eqb (gw_st s) Asleep then
       let buf := gw_buffer s in
       andthen (send_all (s <| gw_st := Awake |>) buf)
-              (fun s => sn_send (s <| gw_buffer := [] |>) Pingresp)
+              (fun s => andthen (sn_send (s <| gw_buffer := [] |>) Pingresp)
+                                (fun s => ok (s <| gw_st := Asleep |>) []))
     else mq_send s MqPingreq
   | Disconnect dur =>
     if dur =? 0 then
@@ -474,7 +489,8 @@ Definition handle_mq (cfg : gw_cfg) (s : gw_state) (m : mq_pkt) : R :=
   match m with
   | MqConnack _ rc =>
     match get_connect s with
-    | Some (g, _, _) =>
+    | Some (g, _, a) =>
+      if negb (cx_state_eqb a CxConnack) then ok s [] else
       if negb (rc =? 0) then
         andthen (sn_send s (Connack RC_CONGESTION)) (fun s => stop (finish_obj s g) [] EcConnectFailed)
       else
@@ -554,7 +570,15 @@ Definition fire (cfg : gw_cfg) (s : gw_state) (k : timer_kind) : R :=
                                                | (Some g', p) => if g' =? g then (Some g', set_dup p) else e
                                                | _ => e end) (gw_buffer s) |> in
       let s := arm s (TmRetry g) (retry_delay cfg) in
-      match data' with RsSn p => sn_send_owned s (Some g) p | RsAck k m => mq_send s (mq_ack k m) end
+      match data' with
+      | RsSn p =>
+        (* an error of the retry callback fails the transaction, not the session *)
+        match sn_send_owned s (Some g) p with
+        | (s1, o, HEnd _) => ok (finish_obj s1 g) o
+        | r => r
+        end
+      | RsAck k m => mq_send s (mq_ack k m)
+      end
     | _ => ok s []
     end
   | TmPing p =>
